@@ -37,7 +37,8 @@ def verify(pid, k, crate=None):
     shutil.copy(os.path.join(src, "demo.rs"), demo_dst)
     pkg = {"rcdom": "markup5ever_rcdom"}.get(crate, crate)
     feat = " --features encoding_rs" if "encoding_rs" in readme and crate == "tendril" else ""
-    cmd = "cargo test --offline -p %s --test %s%s" % (pkg, name, feat)
+    rel = " --release" if "--release" in readme else ""      # a change that only exists without debug_assertions
+    cmd = "cargo test --offline%s -p %s --test %s%s" % (rel, pkg, name, feat)
     rc0, out0 = sh(cmd, cwd=wt)
     ok_without = rc0 == 0
     rc, out = sh("git apply %s" % os.path.join(src, "patch.diff"), cwd=wt)
